@@ -298,7 +298,9 @@ func (e *SendSideBWE) onDelayUpdate(delayStats DelayStats) {
 
 	lossStats := e.lossController.getEstimate(delayStats.TargetBitrate)
 	bitrateChanged := false
-	bitrate := min(delayStats.TargetBitrate, lossStats.TargetBitrate)
+	// the loss based estimator clamps to its own fixed range: keep the published
+	// target inside the configured bounds
+	bitrate := clampInt(min(delayStats.TargetBitrate, lossStats.TargetBitrate), e.minBitrate, e.maxBitrate)
 	if bitrate != e.latestBitrate {
 		bitrateChanged = true
 		e.latestBitrate = bitrate
